@@ -182,6 +182,7 @@ class C06Sched(c07.C07Sched):
 
 
 class C06Spec(c01.C01Spec):
+    churn_share = 0
     prop = PROP
     invariants = INVARIANTS
 
